@@ -52,6 +52,7 @@ type c07 struct {
 	seq        uint32
 	nMut       int64
 	part, parts int // quick: this instance sweeps the bases with index%parts == part (0 parts: all)
+	sessMut, sessLive int64 // session-level mutants answered at all / answered other than "session context not found"
 }
 
 func c07Spec(tier, scenario string) seqx.Spec {
@@ -190,6 +191,13 @@ func (c *c07) Apply(e seqx.Event) seqx.StepResult {
 		c.swept = true
 		n := c.sweep(j)
 		j.Tag(fmt.Sprintf("mutants=%d", n))
+		if c.sessMut >= 50 && c.sessUP[0] != 0 {
+			pct := 100 * c.sessLive / c.sessMut
+			j.Tag(fmt.Sprintf("answered session-level mutants not answered 'context not found': %d0-%d9%%", pct/10, pct/10))
+			if pct < 30 {
+				evid.Infra("C07: only %d%% of the answered session-level mutants reached a live session (stale addressing?)", pct)
+			}
+		}
 		return seqx.StepResult{Obs: "sweep", Viols: j.Viols, Tags: j.Tags}
 	case "Part":
 		// not an event of the UPF: selects which share of the base datagrams a sweep in this state takes, so that
@@ -354,6 +362,14 @@ func (c *c07) one(j *sworld.Judge, m mutant, baseName string, baseline *string) 
 	if len(o.Out[2]) != 1 || o.Out[2][0].Type != smf.MHeartbeatRsp || o.Out[2][0].Seq != c.seq {
 		fail("stops-serving:"+site(), "after a datagram (%s of %s, %d octets: %s) a Heartbeat Request is no longer answered (loop alive=%v, state %q)", m.desc, baseName, len(raw), hexShort(raw), o.Alive, o.State)
 		return true
+	}
+	// how many session-level mutants still reach a live session (a sweep whose mutants are all answered "context
+	// not found" exercises nothing behind the session lookup)
+	if len(raw) > 1 && raw[1] >= 52 && raw[1] <= 55 && len(o.Out[0]) > 0 {
+		c.sessMut++
+		if o.Out[0][0].Cause() != smf.CauseContextNotFound {
+			c.sessLive++
+		}
 	}
 	// sessions not addressed by the offending message are intact: B's session, unless the mutant names it
 	if bSess != 0 {
